@@ -96,6 +96,10 @@ def restricted_cases(rng, n, keep_term=False):
             continue
         eng = w.reg.engine(rel.engine)
         col = rng.choice(sorted(rel.columns))
+        if rng.random() < 0.35:
+            # ... right on top of an operation of the same kind, with which it merges
+            under = rng.choice([("sel", ("cmp", "ge", ("ref", col), ("lit", 0))), ("sort", [(("ref", col), True)])])
+            p = ("un", under, mp.DEFAULT, p)
         it_ok, sql_ok = (False, True) if eng[0] == "it" else (True, False)
         e = ("supp", it_ok, sql_ok, ("ref", col))
         supporting = [x for x in mp.ENGINES if (x[0] == "it") == it_ok]
@@ -224,6 +228,23 @@ def reused_predicate_histories(rng, n):
             if not r:
                 bad.append({"predicate": jsonable(shape), "engine": list(eng), "history": history[:], "problem": what + " was not rejected with ColumnError"})
                 break
+        # an unsupported function term that COMPARES EQUAL to a supported one the relation already selects on
+        from lsst.daf.relation import iteration as _it, sql as _sql
+        E = dr.ColumnExpression
+        other_type = _sql.Engine if eng[0] == "it" else _it.Engine
+        plain = E.function("vid", E.reference(a)).lt(E.literal(5))
+        restricted = E.function("vid", E.reference(a), supporting_engine_types=(other_type,)).lt(E.literal(5))
+        base = A.with_rows_satisfying(plain)
+        for what, call in (("selection with a term restricted to the other engine kind, on a relation already selecting on an equal-looking term",
+                            lambda: base.with_rows_satisfying(restricted)),
+                           ("the same, with a second term", lambda: base.with_rows_satisfying(restricted.logical_and(E.reference(a).ge(E.literal(0)))))):
+            try:
+                call()
+                bad.append({"engine": list(eng), "problem": what + " was accepted"})
+            except dr.EngineError:
+                pass
+            except Exception as e:  # noqa: BLE001
+                bad.append({"engine": list(eng), "problem": what + f" raised {type(e).__name__}"})
         done += 1
     return done, bad
 
